@@ -789,7 +789,13 @@ func genHistory(t *tape.Tape) []world.Op {
 		switch cls := t.Pick(wReset, wObs+1, 6, 2); {
 		case cls == 0:
 			o = world.Op{K: world.KReset, VB: world.GenViewBox(t), Pal: world.GenPalette(t)}
-			if t.Chance(1, 10) {
+			if t.Chance(1, 12) {
+				// exactly Go's zero values: what a caller passes who declares a
+				// Metadata and fills in nothing (a valid, zero-extent viewBox and an
+				// all-transparent palette), and what an Encoder that was only ever
+				// initialised lazily has in its never-written metadata field
+				o.VB, o.Pal = ivg.ViewBox{}, &[64]color.RGBA{}
+			} else if t.Chance(1, 10) {
 				// valid but extreme: finite bounds whose extent overflows float32,
 				// tiny and huge magnitudes (all exactly representable in the
 				// 4-byte form, so that the decode oracle stays bit-exact)
